@@ -35,6 +35,7 @@ def setup(ctx):
     ctx.require("monitor", "warm_up_calls", 20)
     ctx.require("monitor", "ipv6_urls", 300)
     ctx.require("monitor", "live_roundtrips", 22)
+    ctx.require("monitor", "live_urls_holding_scheme_like_text", 8)
     ctx.require("monitor", "wire_lines_checked", 5000)
     ctx.require("monitor", "live_roundtrips_via_cli", 8)
     ctx.require("monitor", "live_length_boundary_urls", 100)
@@ -253,6 +254,12 @@ def run_l3(ctx):
             for i in range(n // 5 + 1):
                 path = uri.gen_path(rng)
                 query = uri.gen_query(rng)
+                if i % 4 == 2:
+                    # text that LOOKS like the start of another URL further along (a gateway, an editor link, a "next"
+                    # parameter): it is part of this URL's path or query and reaches the handler as such
+                    path, query = rng.choice([("/edit", "titan://example.org/page.gmi"), ("/go", "next=gemini://other.example/x"), ("/a/titan://x/y", None), ("/fetch", "TITAN://h/p;size=3"),
+                                              ("/r", "u=https://example.org/a"), ("/gemini://nested/z", "q")])
+                    ctx.count("monitor", "live_urls_holding_scheme_like_text")
                 # (the scheme is case-insensitive; every third URL goes through the command line `nauyaca get`)
                 scheme = ("gemini", "GEMINI", "gemini", "Gemini", "gemini", "gEMINI")[i % 6]
                 url = f"{scheme}://{host_text}:{srv.port}{path}" + (f"?{query}" if query is not None else "")
